@@ -108,7 +108,13 @@ func buildConfig(c *Chooser) (cfg ymap, mustReject []string) {
 	} else {
 		mustReject = append(mustReject, "missing-section:sbi")
 	}
-	switch c.Pick(7, "serviceNameList") {
+	switch c.Pick(10, "serviceNameList") {
+	case 7: // the same service twice in different spelling: rejected, or accepted and served - never accepted and fatal
+		conf["serviceNameList"] = []string{"nchf-convergedcharging", "Nchf-ConvergedCharging"}
+	case 8:
+		conf["serviceNameList"] = []string{"NCHF-CONVERGEDCHARGING"}
+	case 9:
+		conf["serviceNameList"] = []string{"nchf-spendinglimitcontrol"}
 	case 0:
 		conf["serviceNameList"] = []string{"nchf-convergedcharging"}
 	case 1:
